@@ -68,6 +68,15 @@ theorem functions_listed_once (ts now : UInt32) (cs : Schema) (out : SchemaV4)
   rw [← (convAll_hdrs _ cs k f hc).2]
   exact (sortBy_perm _ f).map hdr
 
+/-- Functions are sorted by id (byte-wise, as Go compares strings): no later id is smaller than an earlier one. -/
+theorem functions_sorted (ts now : UInt32) (cs : Schema) (out : SchemaV4)
+    (h : generateTLO ts now cs = .ok out) :
+    out.functions.Pairwise (fun a b => bytesLt b.id a.id = false) := by
+  obtain ⟨k, f, _, ho, _⟩ := generateTLO_ok ts now cs out h
+  subst ho
+  exact sortBy_sorted (fun a b => bytesLt a.id b.id) (fun a b => bytesLt_asymm a.id b.id)
+    (fun a b c => bytesLt_trans a.id b.id c.id) f
+
 /-- guard: builtin wrappers carry the tags `GenerateTLO` hard-codes, and no function is named like a builtin -/
 def builtinsStandard (cs : Schema) : Bool :=
   cs.all (fun c => match builtinTag c.name with
